@@ -13,7 +13,9 @@ for d in seeded/*/; do
   checks=$(python3 -c "
 import json,re,sys
 m=json.load(open('$d/meta.json'))
-cs=re.findall(r'C\d\d', m['verification']['caught_by'].split('(not C07')[0])
+cb=m['verification']['caught_by'].split('(not ')[0]
+cb=re.sub(r'\([^)]*\)', '', cb)   # explanations in parentheses may name other checks
+cs=re.findall(r'C\d\d', cb)
 seen=[]
 for c in cs:
     if c not in seen: seen.append(c)
